@@ -25,7 +25,7 @@ ASSUMPTIONS = ["payoff reference formulas (max(+-(S-K),0), S-K) written independ
                "regression coefficient compared only when the controls' covariance is well conditioned "
                "(min |entry| >= 1e-9 and cond <= 1e8), otherwise only 'variance not larger than raw' is required"]
 TIERS = {
-    "quick": {"worlds": 1200, "wall": 500, "shrink_budget": 60,
+    "quick": {"worlds": 8000, "wall": 500, "shrink_budget": 60,
               "required_probes": ["c07.run_completed", "c07.vector_payoff", "c07.with_controls", "c07.pool_run",
                                   "c07.cv_mean_equals_price", "c07.engine_reused"]},
     "thorough": {"worlds": 60000, "wall": 3300, "shrink_budget": 150,
